@@ -4,7 +4,7 @@ CONSTANTS
   Amounts <- AmtsQ
   Slips <- SlipsQ
   Flow = 100
-  Rates <- RatesQ
+  Rates <- RatesQ1
   KQs <- KQsQ
   Denoms <- DenomsA
   TrimIdx = 3
